@@ -238,7 +238,9 @@ def run_case(rng, idx, tier):
         ev["single_pairs"] += 1
         ks = {"placement": "single-pair-stacked" if stacked else "single-pair", "dyadic": dy}
         if bool(r12[0]) != bool(r21[0]):
-            viol.append({"key": dict(ks, kind="order-dependent-flag"), "err": None,
+            pol = np.asarray((r12 if r12[0] else r21)[1][1], float)
+            pp = bool(len(pol) > 0 and np.abs(pol - pol[0]).max() <= 1e-12)   # the one 'polygon' is a single point (K9)
+            viol.append({"key": dict(ks, kind="order-dependent-flag", point_polygon=pp), "err": None,
                          "msg": "intersect_tetrahedron_pair: %s for (t1,t2) but %s for (t2,t1): t1=%s t2=%s" % (r12[0], r21[0], t1.tolist(), t2.tolist())})
         for (hit, info), (ta, tb), tag in ((r12, (t1, t2), "(t1,t2)"), (r21, (t2, t1), "(t2,t1)")):
             if hit:
